@@ -8,6 +8,8 @@
 //!  L2t type declarations over all type expressions of depth <= 2
 //!  L2  untyped expressions of depth <= 2 over every form of `ast::Expr`
 //!  L3  deviation 1 (thorough: 2 on micro seeds) from valid seed programs
+//!  L6  scaling: every repeatable construct repeated N times (chains, widths,
+//!      nesting up to the depth bound), each under a CPU-time and memory cap
 //!
 //! Oracle: `FileTree::compile` returns `Ok(package)` or `Err(report)`; the
 //! worker survives; the report renders with and without colour; every cited
@@ -19,6 +21,7 @@ mod l2;
 mod l3;
 mod l4;
 mod l5;
+mod l6;
 mod oracle;
 mod seeds;
 mod tok;
@@ -37,6 +40,7 @@ enum Layer {
     L2t,
     L2,
     L3,
+    L6,
 }
 
 impl Layer {
@@ -49,6 +53,7 @@ impl Layer {
             Layer::L2t => "L2t-type-declarations",
             Layer::L2 => "L2-untyped-expressions",
             Layer::L3 => "L3-seed-deviations",
+            Layer::L6 => "L6-scaling",
         }
     }
     fn chunk(self) -> u64 {
@@ -59,11 +64,13 @@ impl Layer {
             Layer::L2t => 1000,
             Layer::L2 => 1000,
             Layer::L3 => 2000,
+            Layer::L6 => 14,
         }
     }
 }
 
-const ORDER: [Layer; 7] = [Layer::L1, Layer::L4, Layer::L5Mem, Layer::L5Disk, Layer::L2t, Layer::L2, Layer::L3];
+const ORDER: [Layer; 8] =
+    [Layer::L6, Layer::L1, Layer::L4, Layer::L5Mem, Layer::L5Disk, Layer::L2t, Layer::L2, Layer::L3];
 
 struct Plan {
     l3: l3::Table,
@@ -84,6 +91,7 @@ fn plan(cfg: &Cfg) -> Plan {
             Layer::L2t => l2::count_t(cfg),
             Layer::L2 => l2::count(cfg),
             Layer::L3 => l3.count(),
+            Layer::L6 => l6::count(cfg),
         };
         counts.push((l, n));
         let mut lo = 0;
@@ -107,6 +115,7 @@ fn build(cfg: &Cfg, p: &Plan, layer: Layer, idx: u64) -> (Option<Input>, Value) 
         Layer::L2t => some(l2::case_t(cfg, idx)),
         Layer::L2 => some(l2::case(cfg, idx)),
         Layer::L3 => p.l3.case(idx),
+        Layer::L6 => some(l6::case(cfg, idx)),
     }
 }
 
@@ -144,7 +153,7 @@ fn signal_name(sig: i32) -> String {
 /// uses); `None` if it returned, in which case the caller runs the case
 /// in-process to judge it. Used only for inputs that may overflow the stack:
 /// a worker death costs a respawn and a re-run of the unit, a fork ~1 ms.
-fn fork_probe(runner: &mut Runner, input: &Input, timeout_s: f64) -> Option<String> {
+fn fork_probe(runner: &mut Runner, input: &Input, timeout_s: f64, caps: Option<(Option<u64>, u64)>) -> Option<String> {
     unsafe {
         let pid = libc::fork();
         if pid < 0 {
@@ -153,6 +162,16 @@ fn fork_probe(runner: &mut Runner, input: &Input, timeout_s: f64) -> Option<Stri
         if pid == 0 {
             let rl = libc::rlimit { rlim_cur: 0, rlim_max: 0 };
             libc::setrlimit(libc::RLIMIT_CORE, &rl);
+            // (address space, CPU seconds): the CPU clock of a forked child starts at 0, so
+            // the verdict "hang" does not depend on how loaded the machine is
+            if let Some((mem, cpu)) = caps {
+                if let Some(mem) = mem {
+                    let rl = libc::rlimit { rlim_cur: mem, rlim_max: mem };
+                    libc::setrlimit(libc::RLIMIT_AS, &rl);
+                }
+                let rl = libc::rlimit { rlim_cur: cpu, rlim_max: cpu + 2 };
+                libc::setrlimit(libc::RLIMIT_CPU, &rl);
+            }
             let _ = runner.run(input);
             libc::_exit(0);
         }
@@ -163,6 +182,9 @@ fn fork_probe(runner: &mut Runner, input: &Input, timeout_s: f64) -> Option<Stri
             let r = libc::waitpid(pid, &mut status, libc::WNOHANG);
             if r == pid {
                 if libc::WIFSIGNALED(status) {
+                    if caps.is_some() && matches!(libc::WTERMSIG(status), libc::SIGXCPU | libc::SIGKILL) {
+                        return Some("hang".into());
+                    }
                     return Some(format!("signal:{}", signal_name(libc::WTERMSIG(status))));
                 }
                 if libc::WIFEXITED(status) && libc::WEXITSTATUS(status) != 0 {
@@ -213,7 +235,8 @@ impl Check for C06 {
         let listed = known::listed_matchers();
         let mut per_finding: HashMap<String, u64> = HashMap::new();
         let mut seen: HashSet<u64> = HashSet::new();
-        let probe_timeout = cfg.tier.pick(3.0, 6.0);
+        // CPU seconds (not wall clock: the verdict must not depend on the load of the machine)
+        let probe_cpu_s: u64 = cfg.tier.pick(3, 6);
         let (mut states, mut execs, mut dups, mut noncases, mut probes) = (0u64, 0u64, 0u64, 0u64, 0u64);
         let (mut compiled, mut reports) = (0u64, 0u64);
         for idx in lo..hi {
@@ -237,9 +260,15 @@ impl Check for C06 {
             let mut viol: Option<(String, Value, Value)> = None;
             let mut obs = None;
             let died = match &input {
+                // L6: every input is compiled in a forked copy first, under the layer's
+                // CPU-time and address-space caps ("hangs" is decided there)
+                Input::Single(_) if layer == Layer::L6 => {
+                    probes += 1;
+                    fork_probe(&mut runner, &input, l6::WALL_BACKSTOP_S, Some((Some(l6::AS_CAP), l6::cpu_cap_s(&cfg))))
+                }
                 Input::Single(s) if known::may_die(s) => {
                     probes += 1;
-                    fork_probe(&mut runner, &input, probe_timeout)
+                    fork_probe(&mut runner, &input, l6::WALL_BACKSTOP_S, Some((None, probe_cpu_s)))
                 }
                 _ => None,
             };
@@ -359,6 +388,7 @@ impl Check for C06 {
                 "L4": {"alphabet": l4::TEXT.iter().map(|c| format!("U+{:04X}", *c as u32)).collect::<Vec<_>>(),
                         "max_len": l4::max_len(cfg), "position_kinds": l4::POSITIONS.len()},
                 "L5": l5::bounds(cfg),
+                "L6": l6::bounds(cfg),
             }),
             states_are: "distinct inputs (source texts / module trees); distinct inside each unit, enumeration indices are distinct across units".into(),
             transitions_are: "runs of FileTree::compile (+ RotoReport::write twice and the location check on Err)".into(),
@@ -366,7 +396,8 @@ impl Check for C06 {
     }
 
     fn case_timeout_s(&self, cfg: &Cfg) -> f64 {
-        cfg.tier.pick(8.0, 15.0)
+        // an L6 input may use its whole CPU cap on a loaded machine
+        cfg.tier.pick(60.0, 120.0)
     }
 
     fn preflight(&self, cfg: &Cfg) -> Result<(), String> {
@@ -461,7 +492,7 @@ fn probe(args: &[String]) {
         let src = if let Some(p) = a.strip_prefix('@') { std::fs::read_to_string(p).unwrap() } else { a.clone() };
         let t = std::time::Instant::now();
         let input = Input::Single(src.clone());
-        if let Some(c) = fork_probe(&mut r, &input, 5.0) {
+        if let Some(c) = fork_probe(&mut r, &input, 5.0, None) {
             println!("{:?}\n  -> DIED {c}  ({:?})\n  feat {}", src, t.elapsed(), known::features(&src));
             continue;
         }
